@@ -6,6 +6,7 @@ CONSTANTS
   J = 250
   MaxLen = 5
   Record = TRUE
+  Retain = TRUE
   Starts = {0, 400, 1000, 2600}
   CtxChoices = {0, 700, 1500, 3100, 8000, 20000, 70000, 300000}
   HCs = {"nil", "plain", "follow", "limit", "jar", "timeout", "uselast", "refuse"}
